@@ -19,6 +19,7 @@
 
 from yalafi import tex2txt
 from . import utils
+import html
 import re
 
 #####################################################################
@@ -76,7 +77,9 @@ def begin_match(m, lin, unsure):
     if cmdline.link and 'urls' in rule:
         urls = json_get(rule, 'urls', list)
         if urls:
-            beg_tag += ('<a href="' + json_get(urls[0], 'value', str)
+            # attribute value: the text must not end it nor hold '<br>\n'
+            beg_tag += ('<a href="'
+                        + html.escape(json_get(urls[0], 'value', str))
                         + '" target="_blank">')
             end_href = '</a>'
     return (beg_tag, end_href)
